@@ -17,6 +17,7 @@ import AioftpModel.Driver.Names
 import AioftpModel.Driver.Calendar
 import AioftpModel.Driver.ClientTree
 import AioftpModel.Driver.Backends
+import AioftpModel.Driver.Timers
 
 open Codec Model Py
 
@@ -73,6 +74,7 @@ def handlePure : List String → Option String
   | "names" :: rest => DriverNames.handleNames rest
   | "calendar" :: rest => handleCalendar rest
   | "ct" :: rest => DriverClientTree.handleClientTree rest
+  | "timers" :: rest => DriverTimers.handleTimers rest
   | _ => none
 
 def handle (st : DState) (line : String) : DState × String :=
